@@ -19,5 +19,6 @@ for id in "$@"; do
   echo "$out" > /dev/shm/logs/isofull_${name}_${id}.log; echo "--- [iso] $name vs $id ($tier): exit=$code"
   echo "$out" | grep -E "^VIOLATION|signature:|detail:|KNOWN-FINDING|MACHINERY|BUILD FAILED|^error" | cut -c1-240 | sort | uniq -c | sort -rn | head -12
 done
+if [ -n "${ISO_KEEP:-}" ]; then echo "kept $base"; exit 0; fi
 git -C /repo worktree remove --force "$base/repo"
 rm -rf "$base"
